@@ -363,12 +363,12 @@ impl Ctx<'_> {
         } else {
             match &m.outcome {
                 Outcome::Panic(p) if p.kind == PanicKind::Panic => {
-                    if let Some(t) = &m.state.tainted {
-                        rep.count(&format!("panic-downstream-of:{}", truncate(t, 60)));
-                    } else if let Some((k, _)) = m.state.violations.first() {
-                        // an unsound value preceded the panic: the panic is its consequence (reported by C01);
-                        // still a C02 violation, keyed by both
-                        out.push((format!("c02:panic:{}:after:{}", p.site(), k), format!("panicked at {}: {} (after the unsound value: {k})", p.site(), p.short_msg())));
+                    if let Some((k, w)) = m.state.violations.first() {
+                        // an unsound value preceded the panic: the panic is its consequence. It is still a violation
+                        // of C02, keyed by the soundness event it follows (so that the consequences of a listed
+                        // C01 finding are one listed C02 finding, whatever the panic site)
+                        rep.count(&format!("panic-after:{}", truncate(k, 60)));
+                        out.push((format!("c02:panic-after:{k}"), format!("panicked at {}: {} - after the unsound value [{}]", p.site(), p.short_msg(), truncate(w, 200))));
                     } else {
                         out.push((format!("c02:panic:{}", p.site()), format!("panicked at {}: {} [executing `{}`]", p.site(), p.short_msg(), truncate(p.src.as_deref().unwrap_or(""), 120))));
                     }
@@ -390,6 +390,121 @@ impl Ctx<'_> {
 }
 
 const FUEL: u64 = 6_000;
+
+/// Programs the checker must reject because running them would go wrong. They are not judged when rejected;
+/// if a (changed) checker accepts one, it is executed under the monitors like any other accepted program.
+pub const NEGATIVE: &[&str] = &[
+    // cells are invariant
+    "w := (c: mut (int|float)) { c = 2.5 }; x := mut 5; w(x); *x + 1",
+    "x := mut 5; a := [x]; w := (cs: [mut (int|string)]) { cs[0] = \"s\" }; w(a); *x + 1",
+    "c := mut 5; g := () -> mut (int|string) { return c }; d := g(); d = \"s\"; *c + 1",
+    "u := mut int|string 1; r := (c: mut int) -> int { return *c + 1 }; u = \"s\"; r(u)",
+    "c := mut 5; t := (c, 1); w := (p: (mut (int|string), int)) { p.0 = \"s\" }; w(t); *c + 1",
+    "c := mut 5; s := struct{a := c}; w := (p: struct{a: mut any}) { p.a = () }; w(s); *c + 1",
+    "c := mut 5; d := mut mut (int|string) c; 1",
+    // tuples, structs, arrays, unions, functions
+    "f := (t: (int, int, int)) -> int { return t.2 }; f((1, 2))",
+    "f := (t: (int, int)) -> int { return t.1 + 1 }; f((1, \"s\"))",
+    "f := (g: (int|string) -> int) -> int { return g(\"s\") }; f((x: int) -> int { return x + 1 })",
+    "f := (g: () -> int) -> int { return g() + 1 }; f(() -> int|string { return \"s\" })",
+    "f := (a: [int]) -> int { return a[0] + 1 }; f([1, \"s\"][1:])",
+    "f := (a: [int]) -> int { return a[0] + 1 }; f([\"s\"])",
+    "f := (s: struct{a: int, b: int}) -> int { return s.b }; f(struct{a := 1})",
+    "f := (s: struct{a: int}) -> int { return s.a + 1 }; f(struct{a := \"s\"})",
+    "f := (x: int) -> int { return x + 1 }; u := [1, \"s\"][1]; f(u)",
+    "u := [1, \"s\"][1]; u + 1",
+    "u := [1, 2.5][1]; u * 2",
+    "f := (a: int) -> int { return a }; f()",
+    "f := (a: int) -> int { return a }; f(1, 2)",
+    "f := (a: int) -> int { return a }; g := [f, (a: int, b: int) -> int { return a + b }][1]; g(1)",
+    "5(1)",
+    "*5",
+    "x := 5; x = 6",
+    "1 && true",
+    "!\"s\"",
+    "-true",
+    "(a, b) := (1, 2, 3); a",
+    "(a, b) := 5; a",
+    "t := [(1, 2), (1, 2, 3)][1]; (a, b) := t; a",
+    "struct{a := 1}.b",
+    "(1, 2).5",
+    "t := [(1, 2), (1, 2, 3)][0]; t.2",
+    // assignments
+    "c := mut 5; c = \"s\"; *c + 1",
+    "c := mut 5; c += 2.5; *c",
+    "c := mut [int] []; c += [\"s\"]; (*c)[0] + 1",
+    "c := mut 5; c &= true; *c",
+    "c := mut int|string 5; c += 1; *c",
+    "c := mut 2.5; c %= 2.0; *c",
+    // conditions, indices
+    "if 1 { 2 }",
+    "while \"s\" { }",
+    "[1, 2][\"a\"]",
+    "[1, 2][0:\"x\"]",
+    "\"ab\"[1:2:true]",
+    "[1, 2][1.5:]",
+    "5[0]",
+    "[0; \"n\"]",
+    // iterator operators
+    "[1]~ $ \"s\" (a: int, x: int) -> int { return a + x }",
+    "[1]~ @ (x: string) -> string { return x + \"a\" } $]",
+    "[\"s\"]~ ? (x: int) -> bool { return x > 1 } $]",
+    "[1]~ ? (x: int) -> int { return x } $]",
+    "[true]~ $+",
+    "[()]~ $*",
+    "[1]~ $&&",
+    "[true]~ $&",
+    "[1, \"s\"]~ $+",
+    "5~",
+    "for x in [1, 2] { x }",
+    "[1]~ \\ (x: int) -> int { return x }",
+    // exits outside their construct
+    "while true { break }; break",
+    "while false { }; continue; 1",
+    "f := () { while true { break } break }; f()",
+    "f := () { while false { } continue }; f()",
+    "t := true; while t { break }; break",
+    "loop { break }; break",
+    "for x in [1]~ { }; break",
+    "f := () { for x in [1]~ { } continue }; f()",
+    "loop { g := () { break }; g(); break }",
+    "loop { g := () { continue }; g(); break }",
+    "[1]~ @ (v: int) -> int { break; return v } $]",
+    "if true { break }",
+    "match 1 { => break, }",
+    "x := mod { break }",
+    "return 5",
+    "{ return 5 }",
+    "if true { return 1 }",
+    "x := mod { return 1 }",
+    "loop { return 1 }",
+    // functions that may fall off their end
+    "f := () -> int { }; f() + 1",
+    "f := (b: bool) -> int { if b { return 1 } }; f(false) + 1",
+    "f := () -> int { loop { break } }; f() + 1",
+    "f := (b: bool) -> int { while b { return 1 } }; f(false) + 1",
+    "f := (u: int|string) -> int { if x: int = u { return x } }; f(\"s\") + 1",
+    "f := (u: int|string) -> int { match u { x: int => { return x }, s: string => { 1 }, } }; f(\"s\") + 1",
+    "f := () -> int { return \"s\" }; f() + 1",
+    "f := () -> int { return }; f() + 1",
+    "f := (b: bool) -> int|string { if b { return 1 } return 2.5 }; f(false)",
+    "f := () -> int { g := () -> string { return 1 }; return 1 }; f()",
+    // matches that do not cover
+    "u := [1, \"s\"][1]; r := match u { x: int => 1, }; r",
+    "match 5 { 6 => 1, }",
+    "u := [1, \"s\", 2.5][2]; match u { x: int|string => 1, }",
+    "match (1, \"s\") { t: (int, int) => 1, }",
+    // names
+    "y + 1",
+    "{ x := 1 }; x",
+    "f := () { z := 1 }; f(); z",
+    "if a: int = 5 { 1 }; a",
+    "match 5 { q: int => 1, }; q",
+    "for e in [1]~ { }; e",
+    "m := mod { a := 1 }; a",
+    "m := mod { a := 1 }; m.b",
+    "g := () -> int { return h() }; h := () -> int { return 1 }; g()",
+];
 
 fn profiles() -> Vec<Profile> {
     let mut hostile = Profile::mixed();
@@ -413,6 +528,22 @@ pub fn run(cfg: &Cfg, rep: &mut Report, mode: &Mode2) {
     let profiles = profiles();
     let mut ctx = Ctx { rep, mode, reported: 0, per_key: Default::default() };
     let mut rng = cfg.rng(0x501);
+    if cfg.shard == 0 {
+        for src in NEGATIVE {
+            let m = run_text(src, FUEL);
+            if matches!(m.outcome, Outcome::Rejected(..)) {
+                ctx.rep.count("negative-templates:rejected");
+                continue;
+            }
+            ctx.rep.count("negative-templates:ACCEPTED");
+            let found = ctx.absorb("negative-template", src, &m);
+            for (key, what) in found {
+                if ctx.want(&key) {
+                    ctx.emit(&key, &format!("(a program the checker is supposed to reject was accepted) {what}"), src);
+                }
+            }
+        }
+    }
     for i in 0..n {
         if i % 8 == 0 {
             if deadline.over() {
